@@ -38,7 +38,8 @@ RULE = (
     "pre-pickle ops: expire attribute(s), touch relationship / deferred column, unflushed scalar set, collection append/remove, what is pickled: the user, one of its "
     "addresses, or a list) x protocol 2-5. rows: statement shape x container x protocol. metadata: 1-4 tables with drawn columns/types/constraints/indexes/naming "
     "convention. serializer: statements from a drawn spec (FROM core table / ORM entity / join, columns, predicates with binds, IN, EXISTS, subquery, union, "
-    "group by, order by, limit) and Query objects. Non-trivial: orm case has >=1 expired-or-deferred attribute and >=1 loaded relationship (or a pending change); "
+    "group by, order by, limit), statements over aliased() entities (plain, named, over a subquery of the mapped table, over a subquery of an unrelated table with "
+    "adapt_on_names=True; selecting the entity, its columns, or a join of the class to its alias) and Query objects. Non-trivial: orm case has >=1 expired-or-deferred attribute and >=1 loaded relationship (or a pending change); "
     "rows case has >1 row; metadata has a foreign key or an index; serializer statement contains a bind, a table and an ORM entity; distinct = canonical JSON"
 )
 ASSUMPTIONS = [
@@ -48,6 +49,7 @@ ASSUMPTIONS = [
     "orm_twin compares flush SQL as a multiset of (statement, parameter set): INSERT order of unrelated pending objects follows the order they entered the session",
     "a pending (never flushed) object unpickles as transient; persistent/detached unpickle as detached (objects are not re-attached by pickle)",
     "ext.serializer identifiers: table / column keys containing ':' are excluded (known finding, pinned replay)",
+    "aliased() entities built directly on a Table or a flat Join are excluded from generation (known finding aliased-entity-on-table-selectable, two pinned replays)",
     "arithmetic composition on a deserialised non-Column expression whose comparator was memoized before pickling is excluded (known finding shared with C03, pinned replay)",
     "metadata: python-side defaults are scalars (callables would have to be importable); no schema-qualified names on SQLite",
 ]
